@@ -452,6 +452,28 @@ def usesUnimplemented : List TypeDecl → List Item → Bool
       if v.present then !implementedField m.ty else !implementedDefault m.ty) ||
     usesUnimplemented decls r
 
+mutual
+/-- an array value / column stores at least one byte per element -/
+def storesData : Val → Bool
+  | .absent => false
+  | .structs _ cols => colsStore cols
+  | _ => true
+def colsStore : List Val → Bool
+  | [] => false
+  | v :: r => storesData v || colsStore r
+end
+
+/-- the file has an object member that is a STRUCT array with elements but without any per-element
+data (every column absent, recursively): its element count can exceed the number of bytes that
+follow (recorded finding `havok-array-length-guard`) -/
+def hasDatalessStructArray : List Item → Bool
+  | [] => false
+  | .type _ :: r => hasDatalessStructArray r
+  | .obj _ fs :: r =>
+    fs.any (fun v => match v with
+      | .structs n cols => decide (1 ≤ n) && !colsStore cols
+      | _ => false) || hasDatalessStructArray r
+
 /-! ### the standard skeleton file -/
 
 def n_hkRootLevelContainer : Bytes :=
